@@ -106,6 +106,7 @@ type c20Step struct {
 func c20ParseLabel(label string) ([]c20Step, error) {
 	var steps []c20Step
 	for _, part := range strings.Split(label, ".") {
+		part = strings.ReplaceAll(part, "`", "") // a keyword element name is a delimited identifier in the label
 		st := c20Step{name: part, idx: -1}
 		if i := strings.Index(part, "["); i >= 0 {
 			if !strings.HasSuffix(part, "]") {
@@ -280,7 +281,7 @@ func init() {
 		Assumptions: []string{"google/fhir jsonformat output is the FHIR JSON tree", "elements inside a ContainedResource-typed field (Bundle.entry.resource, Parameters.parameter.resource) must yield the documented ErrFhirPathNotImplemented"},
 		Subs: func(tier string) []core.Sub {
 			names := lib.ResourceTypeNames()
-			depth, maxVar := 2, 6
+			depth, maxVar := 3, 4 // depth 3 reaches elements (e.g. Narrative.div.id) that depth 2 does not
 			if tier == "thorough" {
 				depth, maxVar = 3, 60
 			}
